@@ -71,7 +71,7 @@ def _alph(tier):
             drive=["const", "rampdet", "blackman", "twophase", "interp", "echo", "twosame", "gap"],
             phase=[0.0, 0.7],
             dmm=[0, 1],
-            slm=[0, 1],
+            slm=[0, 1, 3],
             dev=["mock"],
             mod=[False],
             dt=[10, 3],
@@ -84,7 +84,7 @@ def _alph(tier):
         drive=["const", "rampdet", "blackman", "twophase", "interp", "echo", "twosame", "gap"],
         phase=[0.0, 0.7, float(np.pi)],
         dmm=[0, 1, 2],
-        slm=[0, 1, 2],
+        slm=[0, 1, 2, 3],
         dev=["mock"],
         mod=[False],
         dt=[10, 3, 1, 0.5, 17, 250],
@@ -107,7 +107,7 @@ def _mk(shape, drive, phase, dmm, slm, dev, mod, dt, ev, tol, init, seed, coords
         w = [1.0] + [0.0] * (n - 1) if dmm == 1 else ([0.3, 1.0] + [0.5] * n)[:n]
         spec["dmm"] = {"weights": w, "wfs": [["ramp", 60, 0.0, -5.0], ["const", 40, -2.0]]}
     if slm:
-        spec["slm"] = [0] if slm == 1 or n < 3 else [1, 2]
+        spec["slm"] = [0] if slm == 1 or n < 3 else ([1, 2] if slm == 2 else [1])  # 3: only the middle atom (zero entries followed by non-zero ones in a row)
     cfg = {"dt": dt, "eval": ev, "krylov_tolerance": tol, "with_modulation": mod, "seed": seed}
     if init == "product":
         cfg["init"] = "product:" + ("10" * n)[:n]
@@ -126,11 +126,22 @@ def cases(tier, seed):
         n = len(SHAPES[d["shape"]])
         if d["slm"] and n < 2:
             continue
-        if d["slm"] == 2 and n < 3:
+        if d["slm"] in (2, 3) and n < 3:
             continue
         if d["dmm"] == 2 and n < 2:
             continue
         yield _mk(seed=seed, **d)
+    # interaction cutoff between the entries of the matrix (bent3: 46.1, 38.5, 1.4 rad/us -> the weak pair is dropped) and a custom sparse matrix
+    for drive in ("const", "twophase", "gap"):
+        for dt in (10, 3):
+            c = _mk("bent3", drive, 0.7, 1, 0, "mock", False, dt, [0.37, 1.0], 1e-10, None, seed)
+            c["cfg"]["interaction_cutoff"] = 10.0
+            c["label"] += "/cutoff10"
+            yield c
+            c = _mk("bent3", drive, 0.7, 1, 0, "mock", False, dt, [0.37, 1.0], 1e-10, None, seed)
+            c["cfg"]["interaction_matrix"] = [[0.0, 0.0, 7.0], [0.0, 0.0, 3.0], [7.0, 3.0, 0.0]]
+            c["label"] += "/custom-sparse"
+            yield c
     if tier == "quick":
         # one loose-tolerance run with an SLM mask: exercises the recorded Krylov-accuracy finding in the quick tier as well
         yield _mk("pair", "blackman", 0.0, 0, 1, "mock", False, 3, [1.0], 1e-6, None, seed)
